@@ -343,12 +343,17 @@ from odata_query.grammar import ODataLexer, ODataParser
 from odata_query.rewrite import AliasRewriter
 corp = json.load(open(sys.argv[2]))
 lx, ps = ODataLexer(), ODataParser()
+# every child walks the corpus in its own order, so state kept on a class or module (not
+# only on the instance) shows up as an order-dependent outcome
+import random
+order = list(range(len(corp)))
+random.Random(int(sys.argv[3])).shuffle(order)
+per = [None] * len(corp)
+for i in order:
+    o = outcome(corp[i], lx, ps)
+    per[i] = hashlib.blake2b(json.dumps(o).encode(), digest_size=4).hexdigest()
 h = hashlib.blake2b(digest_size=16)
-per = []
-for t in corp:
-    o = outcome(t, lx, ps)
-    h.update(json.dumps(o).encode())
-    per.append(hashlib.blake2b(json.dumps(o).encode(), digest_size=4).hexdigest())
+h.update("".join(per).encode())
 rw = AliasRewriter({"a": "x/y", "b/c": "z", "title": "tolower(name)"}, lx, ps)
 h.update(repr(sorted((repr(k), repr(v)) for k, v in rw.replacements.items())).encode())
 print(json.dumps({"digest": h.hexdigest(), "per": per}))
@@ -374,7 +379,7 @@ def run_children(ctx, rng, corp):
             env = dict(os.environ)
             env["PYTHONHASHSEED"] = str(s)
             try:
-                p = subprocess.run([sys.executable, "-c", CHILD, o, cf], env=env,
+                p = subprocess.run([sys.executable, "-c", CHILD, o, cf, str(s * 3 + orders.index(o))], env=env,
                                    capture_output=True, text=True, timeout=300)
             except subprocess.TimeoutExpired:
                 ctx.mark_inconclusive("child process timed out")
